@@ -90,7 +90,7 @@ func init() {
 
 	// ---- C03: the run result is the one the workflow's meaning prescribes ----
 	c03 := []*ir.Profile{
-		{Name: "c03-multi", MinSteps: 1, MaxSteps: 5, Durs: someDurs, Modes: allBad, PBad: 35, PDeployFail: 15, PDisabled: 25, PWaitFor: 30, MaxOutputs: 3, PErrPathRef: 15, DeepExpr: true},
+		{Name: "c03-multi", StageRefs: 20, PSimple: 25, MinSteps: 1, MaxSteps: 5, Durs: someDurs, Modes: allBad, PBad: 35, PDeployFail: 15, PDisabled: 25, PWaitFor: 30, MaxOutputs: 3, PErrPathRef: 15, DeepExpr: true},
 		{Name: "c03-errout", MinSteps: 1, MaxSteps: 4, Durs: someDurs, Modes: []string{"err", "crash", "panic"}, PBad: 60, PDeployFail: 25, PDisabled: 30, ErrOutput: true, MaxOutputs: 3},
 		{Name: "c03-tags", MinSteps: 2, MaxSteps: 4, Durs: someDurs, Tags: true, Modes: []string{"err", "crash"}, PBad: 30, PDisabled: 30, PDeployFail: 10, MaxOutputs: 2, ErrOutput: true},
 		{Name: "c03-plain", MinSteps: 2, MaxSteps: 6, Durs: someDurs, PWaitFor: 50, PDeploySlow: 40, MaxOutputs: 2, DeepExpr: true},
@@ -183,7 +183,8 @@ func init() {
 
 	// ---- C08: accepted workflows are type-sound ----
 	c08 := []*ir.Profile{
-		{Name: "c08-engine-outputs", PluginArith: true, StructRefs: true, MinSteps: 1, MaxSteps: 4, Durs: []int64{0, 5, 50}, Modes: allBad, PBad: 60, PDeployFail: 30, PDisabled: 40, ErrOutput: true, MaxOutputs: 3, PErrPathRef: 50, PWaitFor: 20},
+		{Name: "c08-engine-outputs", StageRefs: 30, PSimple: 40, PluginArith: true, StructRefs: true, MinSteps: 1, MaxSteps: 4, Durs: []int64{0, 5, 50}, Modes: allBad, PBad: 60, PDeployFail: 30, PDisabled: 40, ErrOutput: true, MaxOutputs: 3, PErrPathRef: 50, PWaitFor: 20},
+		{Name: "c08-stage-objects", MinSteps: 2, MaxSteps: 3, Durs: []int64{0, 5}, Modes: []string{"err"}, PBad: 45, PSimple: 70, StageRefs: 80, PDisabled: 15, MaxOutputs: 1},
 		{Name: "c08-loops", MinSteps: 1, MaxSteps: 3, Durs: []int64{0, 5}, Foreach: 70, Modes: []string{"err", "alt"}, PBad: 40, ErrOutput: true, MaxOutputs: 2},
 		{Name: "c08-plain", PluginArith: true, MinSteps: 1, MaxSteps: 5, Durs: someDurs, PWaitFor: 40, DeepExpr: true, MaxOutputs: 2},
 	}
@@ -197,7 +198,7 @@ func init() {
 			}
 			if rapid.IntRange(0, 3).Draw(t, "loops_cancelled") == 0 {
 				// a loop that is closed in the middle of its run (caller cancellation) still has to report well-typed data
-				return genS2(t, "C08", c08[1:2], 70, 0, 0)
+				return genS2(t, "C08", c08[2:3], 70, 0, 0)
 			}
 			return genS1(t, "C08", c08, rapid.Bool().Draw(t, "adv"))
 		},
